@@ -674,10 +674,32 @@ RUNNERS = dict(result=sec_result, value=sec_value, evalcfg=sec_evalcfg, event=se
                quadtree=sec_quadtree)
 
 
+# records next to the property (EvaluationConfiguration, Event, FileSystem.to_dict/from_dict, QuadtreeGrid2D.to_dict): the property
+# text does not mention them. They stay modelled and compared on every run, but a difference is RECORDED in the histogram
+# (`outside-property:<section>:…`), never reported: a rewrite of these classes is not a change of C18's behaviour.
+OUTSIDE_PROPERTY = ("evalcfg", "event", "repo", "quadtree")
+
+
+class _Recorded:
+    """proxy of the run object for sections outside the property: differences are counted, not reported"""
+
+    def __init__(self, run, section):
+        self._run, self._section = run, section
+
+    def __getattr__(self, name):
+        return getattr(self._run, name)
+
+    def mismatch(self, case, impl, model):
+        self._run.count(f"outside-property:{self._section}:model-differs(recorded, not judged)")
+
+    def oracle_failure(self, case, detail, signature=None):
+        self._run.count(f"outside-property:{self._section}:expectation-differs(recorded, not judged)")
+
+
 def run_case(run, drv, pend, section, sub_seed, tmp):
     rng = random.Random(sub_seed)
     case = dict(mode="tree", section=section, sub_seed=sub_seed)
-    RUNNERS[section](run, drv, pend, rng, case, tmp)
+    RUNNERS[section](_Recorded(run, section) if section in OUTSIDE_PROPERTY else run, drv, pend, rng, case, tmp)
 
 
 def run_all(run, drv, pend, rng, thorough, tmp):
@@ -691,6 +713,8 @@ def run_all(run, drv, pend, rng, thorough, tmp):
 
 def flush_one(run, what, case, o, impl):
     """compare one queued driver answer; returns True when `what` was one of this module's"""
+    if isinstance(case, dict) and case.get("section") in OUTSIDE_PROPERTY:
+        run = _Recorded(run, case["section"])
     if what == "tree":
         loaded, safe = impl
         if (loaded == "err") != (o == "err") and not safe and not loaded[:1].isupper():
@@ -718,6 +742,12 @@ def flush_one(run, what, case, o, impl):
             run.count("unmodelled:" + what[4:])
             return True
         if o != impl:
-            run.mismatch(dict(case, op=what.split(":", 1)[1]), impl, o)
+            if o == "err" or o == "none" or o[:1].isupper():
+                # the MODEL refuses this input (damaged dictionary, malformed text, unknown stored class, scalar distribution …):
+                # it is outside what the property quantifies over; which error the code raises, or whether a more forgiving
+                # code accepts it, is incidental behaviour: recorded, not judged
+                run.count(f"model-refuses-input:{what.split(':', 1)[1]}:implementation-differs(not judged)")
+            else:
+                run.mismatch(dict(case, op=what.split(":", 1)[1]), impl, o)
         return True
     return False
